@@ -310,3 +310,17 @@ def c09_6(ctx: Ctx) -> RuleResult:
         i.rule = "C09.6"
     r.rule, r.title = "C09.6", "gradient entries of fixed variables are exactly zero (expansion with zeros at the mask)"
     return r
+
+
+@rule(P)
+def c09_7(ctx: Ctx) -> RuleResult:
+    """Shared with C17.2: samplers scatter their samples at the mask they were given; an altered mask
+    (e.g. an empty one treated as `no mask`) perturbs fixed variables."""
+    from .c17 import c17_2
+
+    r = c17_2(ctx)
+    r.instances = [i for i in r.instances if "mask field" in i.construct or "masked scatter" in i.construct]
+    for i in r.instances:
+        i.rule = "C09.7"
+    r.rule, r.title, r.floor = "C09.7", "samplers write samples only at the mask handed to them (zeros elsewhere), the mask kept as given", 2
+    return r
